@@ -807,7 +807,9 @@ pub fn rasterframes(sink: &mut Sink, seed: u64, thorough: bool) {
             if (x - y).abs() < 3.0 { if x + 4.0 < hi { x += 4.0 } else { y = (y - 4.0).max(lo) } }
             let cells = (qr.size + 2 * m) as u32;
             let p = vec![Call::Margin(m), Call::Shape(0), Call::Image("no-such-file.png".into()), Call::ImageBackgroundColor(vec![200, 30, 40, 255]), Call::ImageBackgroundShape((i + vi) % 3),
-                         Call::ImageSize(size), Call::ImageGap(gap), Call::ImagePosition(x, y), Call::FitWidth(4 * cells)];
+                         Call::ImageSize(size), Call::ImageGap(gap), Call::ImagePosition(x, y)];
+            let mut p = p;
+            match i % 4 { 0 => p.push(Call::FitWidth(4 * cells)), 1 => p.push(Call::FitHeight(3 * cells)), 2 => {} , _ => { p.insert(1, Call::FitWidth(9 * cells)); p.push(Call::FitHeight(5 * cells)); } }
             let id = sink.id();
             sink.emit(&raster_event(id, &format!("rasterframe:{v}:{}", (i + vi) % 3), &qr, &p));
         }
